@@ -20,7 +20,7 @@ RULE = (
     "non-trivial = accepted and (re-encoded bytes differ from the consumed input, or unknown option / unknown flag bits / "
     "unreferenced options present); distinct = distinct case JSON"
 )
-EXHAUSTIVE = "all 65536 combinations of message-type byte x return-code byte in an otherwise valid SOME/IP message, and all 256 option type bytes x 5 payload shapes (fixed cases)"
+EXHAUSTIVE = "all 65536 combinations of message-type byte x return-code byte in an otherwise valid SOME/IP message, all 256 option type bytes x 5 payload shapes and configuration strings of every length 1..255 (fixed cases)"
 ASSUMPTIONS = [
     "kept information is compared field-wise through harness/wire.py's decoding of the input and of the re-encoded bytes",
     "inputs rejected by the decoder are out of scope here (C03)",
@@ -51,6 +51,10 @@ def fixed_cases(tier):
             out.append({"kind": "sd", "mut": [], "sd": {"flags": 0xC0 | (t & 0x3F), "reserved": "0a0b0c", "tail": "",
                         "options": [{"raw": {"type": t, "data": data}}, {"raw": {"type": t ^ 0xFF, "data": "00aa"}}],
                         "entries": [dict(type=1, service=1, instance=1, major=1, ttl=3, minor=0, idx1=0, n1=1, idx2=1, n2=0)]}})
+    # a configuration string of every length 1..255, bare key and key=value
+    for d in S.cfg_length_sweep():
+        out.append({"kind": "sd", "mut": [], "sd": {"flags": 0xC0, "reserved": "000000", "tail": "", "options": [{"desc": d}],
+                    "entries": [dict(type=1, service=1, instance=1, major=1, ttl=3, minor=0, idx1=0, n1=1, idx2=0, n2=0)]}})
     return out
 
 
